@@ -199,7 +199,11 @@ func H_Palette() {
 		pal[i] = c
 	}
 	var e encode.Encoder
-	e.Reset(ivg.DefaultViewBox, pal)
+	vb := ivg.DefaultViewBox
+	if vp.Choice("vb", 2) == 1 { // the palette chunk then follows a viewBox chunk
+		vb = ivg.ViewBox{MinX: -24, MinY: -16, MaxX: 24, MaxY: 16}
+	}
+	e.Reset(vb, pal)
 	out, err := e.Bytes()
 	vp.Assert(err == nil, "Reset with a valid palette is accepted")
 	var d rec.Dest
